@@ -333,7 +333,8 @@ def list_method(I, o, name):
         raise OutOfSubset('hex of symbolic bytes')
 
     tbl = {'append': append, 'extend': extend, 'pop': pop, 'remove': remove, 'insert': insert, 'index': index,
-           'count': count, 'clear': clear, 'copy': copy, 'reverse': reverse}
+           'count': count, 'clear': clear, 'copy': copy, 'reverse': reverse,
+           'popleft': lambda I_, a, k: pop(I_, [0], {})}
     if isba:
         tbl.update({'find': find, 'decode': decode, 'hex': hexm})
     else:
@@ -1159,6 +1160,26 @@ def math_fn(I, name, a):
             return SReal(f(*[ops.to_real(I, v) for v in a]))
         raise OutOfSubset('math.%s in FP mode' % name)
     raise OutOfSubset('math.%s' % name)
+
+
+def _array_array(I, a, k):
+    tc = a[0]
+    if tc != 'B':
+        raise OutOfSubset('array.array typecode %r' % (tc,))
+    items = [ops.byte_check(I, x) for x in I.iterate_all(a[1])] if len(a) > 1 else []
+    I.note_assumption("array.array('B') is modelled as a bytearray (differs only in the exception class for out-of-range items)")
+    return PBytearray(items)
+
+
+EXTERNALS['array.array'] = _fn('array.array', _array_array)
+
+
+def _deque(I, a, k):
+    I.note_assumption('collections.deque is modelled as a list (maxlen is not enforced)')
+    return PList(I.iterate_all(a[0]) if a else [])
+
+
+EXTERNALS['collections.deque'] = _fn('collections.deque', _deque)
 
 
 THREAD = ExtClass('Thread')
